@@ -558,10 +558,10 @@ def run(ctx):
     ctx.assume("pop() may return any member (the model removes whichever member was returned)")
     ctx.assume("which of two key objects with the same encoding an ordered map retains is unspecified: keys are compared by encoding")
     domains = _domains(SortedSet)
-    budget = 40 if ctx.quick else 400
+    budget = 40 if ctx.quick else 330
     t0 = time.time()
-    n_set = ctx.scale(12000, 3000000)
-    n_map = ctx.scale(9000, 2400000)
+    n_set = ctx.scale(12000, 1800000)
+    n_map = ctx.scale(9000, 1500000)
     sortedset_sequences(ctx, n_set, SortedSet, ModelSet, domains, t0 + budget * 0.55)
     orderedmap_sequences(ctx, n_map, t0 + budget)
     ctx.floor_distinct = 2000
